@@ -404,7 +404,13 @@ class FileStorage(
         with the index.  Any invalid record records or inconsistent
         object positions cause zero to be returned.
         """
-        r = self._check_sanity(index, pos)
+        try:
+            r = self._check_sanity(index, pos)
+        except Exception:
+            # The saved position does not name a transaction boundary of
+            # this file (e.g. an index saved before a pack): what is read
+            # there need not even parse.  The index is not usable.
+            r = 0
         if not r:
             logger.warning("Ignoring index for %s", self._file_name)
         return r
